@@ -15,6 +15,7 @@ OBSERVATION with the schedule that produced it.
 """
 import json
 import sys
+import types
 
 from harness import detsched, runner, tlc
 
@@ -53,9 +54,13 @@ def snapshot(ls):
     }
 
 
-def once(policy):
+def once(policy, scen='move'):
+    import bardolph.controller.light as light_mod
+    vt = types.SimpleNamespace(now=1000000.0)
+    saved_time = light_mod.time
+    light_mod.time = types.SimpleNamespace(time=lambda: vt.now)
     sched = detsched.Sched(policy, trace_files=('light_set.py', 'sorted_list.py'), max_steps=6000)
-    world = runner.World(POP)
+    world = runner.World(POP, extra_settings={'light_gc_time': 300})
     reads, problems = [], []
     try:
         ls = world.light_set
@@ -63,8 +68,14 @@ def once(policy):
         scenario = {'names0': [ID[n] for n in ls._light_names],
                     'gd0': [{'k': ID[k], 'm': [ID[n] for n in m]} for k, m in ls._groups.items()],
                     'ld0': [{'k': ID[k], 'm': [ID[n] for n in m]} for k, m in ls._locations.items()]}
-        world.net.by_name('C').group = 'G1'          # C moves to G1: G2 disappears
-        world.net.by_name('A').location = 'L2'       # A moves to L2
+        expired = []
+        if scen == 'move':
+            world.net.by_name('C').group = 'G1'          # C moves to G1: G2 disappears
+            world.net.by_name('A').location = 'L2'       # A moves to L2
+        else:                                            # C no longer answers and is old enough to be collected
+            world.net.set_population([d for d in POP if d['name'] != 'C'])
+            vt.now += 301
+            expired = [ID['C']]
 
         def refresher():
             ls.refresh()
@@ -92,12 +103,13 @@ def once(policy):
         sched.spawn(reader, name='reader')
         sched.run()
         after = snapshot(ls)
-        scenario.update(order=[ID[d.name] for d in world.net.devices], newg=[ID[d.group] for d in world.net.devices],
+        scenario.update(expired=expired, order=[ID[d.name] for d in world.net.devices], newg=[ID[d.group] for d in world.net.devices],
                         newl=[ID[d.location] for d in world.net.devices], namesfin=[ID[n] for n in after['names']],
                         gfin=[{'k': ID[k], 'm': [ID[n] for n in m]} for k, m in after['groups'].items()],
                         lfin=[{'k': ID[k], 'm': [ID[n] for n in m]} for k, m in after['locations'].items()])
     finally:
         world.close()
+        light_mod.time = saved_time
 
     def legit(kind, value):
         out = []
@@ -111,7 +123,7 @@ def once(policy):
             elif kind.startswith('members:L'):
                 out.append(snap['locations'].get(kind[8:]))
             elif kind == 'group_of_C':
-                out.append('G2' if snap is before else 'G1')
+                out.append('G2' if snap is before else ('G1' if scen == 'move' else None))
         return value in out
     for kind, value in reads:
         if not legit(kind, value):
@@ -121,10 +133,16 @@ def once(policy):
 
 
 def main(budget):
+    for scen in ('move', 'expire'):
+        explore_scenario(scen, budget)
+
+
+def explore_scenario(scen, budget):
+    print('x_refresh: scenario %s' % scen)
     seen = {}
     runs = 0
     traces, scenario = {}, None
-    for sched in detsched.explore(lambda pol: once_wrapped(pol, seen), 1, budget):
+    for sched in detsched.explore(lambda pol: once_wrapped(pol, seen, scen), 1, budget):
         runs += 1
         scenario = sched.x_scenario
         traces.setdefault(json.dumps(sched.x_reads), [c[1] for c in sched.choices])
@@ -176,8 +194,8 @@ def model(scenario, traces):
     print('x_refresh: %d distinct read sequences recorded, %d explained by LightDirRace (%d states)' % (len(keys), len(keys) - len(bad), res.distinct))
 
 
-def once_wrapped(policy, seen):
-    sched, problems = once(policy)
+def once_wrapped(policy, seen, scen='move'):
+    sched, problems = once(policy, scen)
     for p in problems:
         count, first = seen.get(p, (0, [c[1] for c in sched.choices]))
         seen[p] = (count + 1, first)
